@@ -57,3 +57,41 @@ func (e *Engine) poolTake(st *State, th *Thread, p Ptr) Value {
 	e.Stats.PoolHits++
 	return x
 }
+
+// poolBacking finds the byte object behind a pooled value (*[]byte or *bytes.Buffer).
+func (e *Engine) poolBacking(st *State, x IfaceV) ObjID {
+	p, ok := x.V.(Ptr)
+	if !ok || p.Obj == 0 {
+		return 0
+	}
+	switch y := loadPath(st.obj(p.Obj).V, p.Path).(type) {
+	case SliceV:
+		return y.Obj
+	case *StructV: // bytes.Buffer{buf, off, lastRead}
+		if len(y.F) > 0 {
+			if s, ok := y.F[0].(SliceV); ok {
+				return s.Obj
+			}
+		}
+	}
+	return 0
+}
+
+// poolMark keeps the "is in a pool" flag of pooled buffers. A buffer that is Put while it is already in a pool
+// (no Get handed it out in between) can be obtained by two users at once: reported as a violation of exclusive
+// ownership (label c10-pooled-buffer-returned-to-the-pool-twice), in both pool models.
+func (e *Engine) poolMark(st *State, x IfaceV, put bool) {
+	id := e.poolBacking(st, x)
+	if id == 0 {
+		return
+	}
+	if st.obj(id).Kind != OBytes {
+		return
+	}
+	if put && st.obj(id).InPool {
+		e.reportViolation(st, "c10-pooled-buffer-returned-to-the-pool-twice",
+			"a buffer allocated at "+st.obj(id).Site+" is Put into a sync.Pool while it is already in one: two later Gets can hand the same memory to two users", nil)
+		return
+	}
+	st.wobj(id).InPool = put
+}
